@@ -460,6 +460,34 @@ func init() {
 		}
 		return strings.Join(out, "!")
 	}
+	// withdraw <rate> <cid> <bridge> <msgs> <utxos>   msgs = amountBytesHex,recipient,expectedScript;…
+	// every message through the real ERC20MessageHandler (amount / 10^10), the resulting proposals through rawTx
+	//   =>  err | in=…|out=…
+	ops["C16.withdraw"] = func(a []string) string {
+		ps := []*executor.BtcTransferProposal{}
+		for i, it := range items(a[3], ";") {
+			f := strings.Split(it, ",")
+			rc := f[1]
+			if rc == "-" {
+				rc = ""
+			}
+			p, err := executor.ERC20MessageHandler(&transfer.TransferMessage{Source: 1, Destination: 2, ID: "id",
+				Data: transfer.TransferMessageData{DepositNonce: uint64(100 + i), ResourceId: [32]byte{9}, Type: transfer.FungibleTransfer,
+					Payload: []interface{}{unhx(f[0]), []byte(rc)}}})
+			if err != nil {
+				return "err"
+			}
+			ps = append(ps, &executor.BtcTransferProposal{Source: p.Source, Destination: p.Destination, Data: p.Data.(executor.BtcTransferProposalData)})
+		}
+		mp := &c16Mempool{rate: a[0], utxos: c16Utxos(a[4])}
+		up := &c16Uploader{cid: string(unhx(a[1]))}
+		res := config.Resource{Address: c16Bridge(strings.Split(a[2], ":")[0]), ResourceID: [32]byte{9}, FeeAmount: big.NewInt(0)}
+		tx, used, err := c16Exec(mp, up).VerifC16RawTx(ps, res)
+		if err != nil {
+			return "err"
+		}
+		return c16ShowTx(tx, used) + c16Uploaded(up, ps)
+	}
 	gens["C16"] = genC16
 }
 
@@ -557,6 +585,7 @@ func genC16(g *G) {
 	tx := func(i int) string { return fmt.Sprintf("%064x", 0xabc000+i) }
 
 	genC16Batches(g, br, cid, rcp)
+	genC16Boundaries(g, br, cid, rcp)
 	// --- fee formula
 	for _, rate := range []uint64{0, 1, 4, 5, 6, 9, 10, 99, 100, 1000, 1 << 32, 1<<64 - 1} {
 		for _, io := range [][2]uint64{{0, 0}, {0, 1}, {1, 1}, {1, 2}, {2, 3}, {7, 2}, {1000, 1001}, {1 << 40, 3}} {
@@ -922,6 +951,119 @@ func genC16Batches(g *G, br, cid string, rcp func(byte) (string, string)) {
 			ut = fmt.Sprintf("%064x,0,%d,1000", 0xabc001, 500+g.Intn(3000))
 		}
 		g.Emit("batch", []string{"1", "5", "7/9"}[g.Intn(3)], cid, br, joinOr(st, ";"), ut, strings.Join(bs, "!"))
+	}
+}
+
+// amounts and fee quotes at the boundaries of the integer types: int64 / uint64 limits, the bitcoin supply, batch totals that
+// wrap, and fee rates that make amount + fee wrap — with UTXO sets that cannot pay such amounts
+func genC16Boundaries(g *G, br, cid string, rcp func(byte) (string, string)) {
+	r1, s1 := rcp(1)
+	r2, s2 := rcp(2)
+	const maxU = ^uint64(0)
+	const maxSat = uint64(2100000000000000)
+	tx := func(i int) string { return fmt.Sprintf("%064x", 0xabc000+i) }
+	amounts := []uint64{maxSat - 1, maxSat, maxSat + 1, 1<<62 - 1, 1 << 62, 1<<63 - 1, 1 << 63, 1<<63 + 1,
+		maxU, maxU - 1, maxU - 500, maxU - 1239, maxU - 1240, maxU - 1241, maxU - 2479, maxU - 2480, maxU - 5000, maxU - 50000, maxU - 50001}
+	utxoSets := []string{
+		tx(1) + ",0,50000,1000",
+		tx(1) + ",0,600,1000;" + tx(2) + ",0,700,1001;" + tx(3) + ",0,48700,1002",
+		tx(1) + ",0,2099999999990000,1000;" + tx(2) + ",0,100000,1001",
+		"-",
+	}
+	scale := new(big.Int).Exp(big.NewInt(10), big.NewInt(10), nil)
+	pay := func(v uint64, d int64) string { // payload bytes of v*10^10 + d units
+		x := new(big.Int).Mul(new(big.Int).SetUint64(v), scale)
+		x.Add(x, big.NewInt(d))
+		return hx(x.Bytes())
+	}
+	for _, us := range utxoSets {
+		for _, a := range amounts {
+			for _, rate := range []string{"1", "5"} {
+				g.Emit("rawtx", rate, cid, br, utoa(a)+","+r1+","+s1, us)
+			}
+			g.Emit("withdraw", "1", cid, br, pay(a, 0)+","+r1+","+s1, us)
+			g.Emit("withdraw", "1", cid, br, pay(a, 9999999999)+","+r1+","+s1, us)
+		}
+		// batch totals: wrap to a small number, wrap to exactly 0, land just above / at the supply, stay below it
+		for _, pr := range [][2]uint64{{maxU, 2}, {maxU, 1}, {1 << 63, 1 << 63}, {1 << 63, 1<<63 + 40000}, {maxU - 1000, 900}, {maxU - 1000, 1001},
+			{maxSat, 1}, {maxSat - 1, 1}, {maxSat - 1, 2}, {maxSat / 2, maxSat/2 + 1}, {maxSat / 2, maxSat / 2}, {1, maxSat}, {0, maxSat + 1}, {0, maxU}} {
+			ps := utoa(pr[0]) + "," + r1 + "," + s1 + ";" + utoa(pr[1]) + "," + r2 + "," + s2
+			g.Emit("rawtx", "1", cid, br, ps, us)
+			g.Emit("withdraw", "1", cid, br, pay(pr[0], 0)+","+r1+","+s1+";"+pay(pr[1], 0)+","+r2+","+s2, us)
+		}
+		// what does not fit 64 bits must not be paid as its low 64 bits
+		for _, d := range []int64{0, 1, 5000 * 10000000000, 10000 * 10000000000} {
+			x := new(big.Int).Lsh(big.NewInt(1), 64)
+			x.Mul(x, scale)
+			x.Add(x, big.NewInt(d))
+			g.Emit("withdraw", "1", cid, br, hx(x.Bytes())+","+r1+","+s1, us)
+			g.Emit("msg", hx(x.Bytes()), hx([]byte(r1)))
+		}
+	}
+	// fee quotes whose product lands just below 2^64, so that amount + fee wraps while the UTXOs hold less than the amount
+	for _, shape := range [][2]uint64{{1, 2}, {2, 2}, {1, 3}, {3, 2}} {
+		size := shape[0]*180 + shape[1]*34
+		r0 := maxU / size
+		for j := uint64(0); j < 12; j++ {
+			rr := r0 - j
+			if rr%5 != 0 {
+				continue
+			}
+			below := -(size * rr) // 2^64 - fee
+			for _, extra := range []uint64{1, 1000, 40000} {
+				amount := below + extra
+				np := int(shape[1]) - 1
+				ps := []string{}
+				rest := amount
+				for k := 0; k < np; k++ {
+					v := rest
+					if k < np-1 {
+						v = rest / 3
+					}
+					rest -= v
+					r, sc := rcp(byte(k + 1))
+					ps = append(ps, utoa(v)+","+r+","+sc)
+				}
+				for _, total := range []uint64{extra, extra + 1, amount - 1, amount - amount/2, amount, amount + 1} {
+					us := []string{}
+					left := total
+					for k := uint64(0); k < shape[0]; k++ {
+						v := left
+						if k < shape[0]-1 {
+							v = left / 2
+						}
+						left -= v
+						us = append(us, fmt.Sprintf("%s,%d,%d,%d", tx(int(k)), k, v, 1000+k))
+					}
+					g.Emit("rawtx", utoa(rr-5), cid, br, joinOr(ps, ";"), joinOr(us, ";"))
+					g.Emit("rawtx", "1/"+utoa(rr-5), cid, br, joinOr(ps, ";"), joinOr(us, ";"))
+				}
+			}
+		}
+	}
+	// random: amounts drawn from the boundary set, UTXOs that cannot pay them
+	for i := 0; i < g.Count(300, 8000); i++ {
+		n := 1 + g.Intn(3)
+		ps, ms := []string{}, []string{}
+		for k := 0; k < n; k++ {
+			a := amounts[g.Intn(len(amounts))]
+			switch g.Intn(4) {
+			case 0:
+				a = uint64(g.Intn(100000))
+			case 1:
+				a -= uint64(g.Intn(3000))
+			}
+			r, sc := rcp(byte(k + 1))
+			ps = append(ps, utoa(a)+","+r+","+sc)
+			ms = append(ms, pay(a, int64(g.Intn(3)))+","+r+","+sc)
+		}
+		us := utxoSets[g.Intn(len(utxoSets))]
+		if g.Intn(3) == 0 {
+			us = fmt.Sprintf("%s,0,%d,1000;%s,1,%d,1000", tx(1), g.Intn(100000), tx(1), g.U64()%maxSat)
+		}
+		rate := []string{"0", "1", "5", "7/9", "1000000"}[g.Intn(5)]
+		g.Emit("rawtx", rate, cid, br, joinOr(ps, ";"), us)
+		g.Emit("withdraw", rate, cid, br, joinOr(ms, ";"), us)
 	}
 }
 
